@@ -85,11 +85,17 @@ PROPS = {
                   "Lean 4 theorems (trim specification, acceptance predicate iff, values never matter, malformed response = error at every entry point, accepted strings unchanged) + differential correspondence with strings over Unicode whitespace / underscores / length boundaries at all entry points",
                   "The validation predicate is proved equivalent to its specification on the model for all strings; the model's trim (Unicode White_Space set written out) is tied to Rust's str::trim by correspondence on attribute keys/values and event types placed at execute, instantiate, reply, sudo and migrate, at depth.",
                   "scripts whose attributes/events draw keys and types from ASCII, '_', Unicode White_Space code points, near-misses (U+200B, U+FEFF, U+180E), multi-byte letters, lengths 0-2 after trimming; placed at all five entry points and inside sub-messages"),
-    "C19": _entry("C19", "CwMt.Props.C19", [("wasm-det", 2000, 40000)], "pred_c19",
+    "C19": _entry("C19", "CwMt.Props.C19", [("wasm-det", 2000, 40000)], "pred_c19",  # + staking-det appended below
                   "Lean 4 theorem (interleaving two instances = running each alone; ids are functions of the instance's registry) + differential correspondence: every history run on a fresh App, again on a second App interleaved with a different history on a third, all transcripts equal to one pure model run; source scan for impure constructs",
                   "Determinism of a Lean function is by construction, so the proved part is the non-interference specification; the claim about the code is carried by comparing complete transcripts of repeated and interleaved runs with the pure model (partial by nature: wall-clock, allocator and dependency-global state are outside the model).",
                   "history H1 on App 1; then H1 on App 2 interleaved at random points with a different history H2 on App 3; predicate: transcripts of H1 on App 1 and App 2 identical; all three equal to the model"),
 }
+
+PROPS["C19"]["slices"].append({"name": "staking-det", "quick": 1500, "thorough": 15000,
+                               "predicate": "pred_c19_staking", "nontrivial": "nt_c19_staking"})
+PROPS["C19"]["rule"] += ("; slice staking-det: a staking history (several delegators per validator, slashes, unbondings, block advances) on App 1 "
+                         "and again on a fresh App 2, with a hash of the complete raw root storage after every op; predicate: both transcripts "
+                         "including the hashes are identical")
 
 ENGINES = [
     {"name": "wasm", "path": "lean/CwMt/Model/{Engine,Registry,Wire,Bank}.lean + lean/CwMt/Driver/Wasm.lean + harness/src/{wasm,wasm_gen,wasm_gen2}.rs",
